@@ -348,30 +348,30 @@ func (p LLDP) Capability(v []byte) string {
 	}
 	// System capabilities TLV: Indicates the primary function(s) of the device and whether or not these
 	// functions are enabled in the device. The capabilities are indicated by two octects.
-	// Bits 0 through 7 indicate Other, Repeater, Bridge, WLAN AP, Router, Telephone, DOCSIS cable device and Station respectively. Bits 8 through 15 are reserved.
+	// Bits 0 (least significant, 0x01) through 7 (0x80) of the second octet indicate Other, Repeater, Bridge, WLAN AP, Router, Telephone, DOCSIS cable device and Station respectively. Bits 8 through 15 are reserved.
 	s := ""
-	if (v[1] & 0x80) == 0x80 {
+	if (v[1] & 0x01) == 0x01 {
 		s = s + "other,"
 	}
-	if (v[1] & 0x40) == 0x40 {
+	if (v[1] & 0x02) == 0x02 {
 		s = s + "repeater,"
 	}
-	if (v[1] & 0x20) == 0x20 {
+	if (v[1] & 0x04) == 0x04 {
 		s = s + "bridge,"
 	}
-	if (v[1] & 0x10) == 0x10 {
+	if (v[1] & 0x08) == 0x08 {
 		s = s + "AP,"
 	}
-	if (v[1] & 0x08) == 0x08 {
+	if (v[1] & 0x10) == 0x10 {
 		s = s + "router,"
 	}
-	if (v[1] & 0x04) == 0x04 {
+	if (v[1] & 0x20) == 0x20 {
 		s = s + "phone,"
 	}
-	if (v[1] & 0x02) == 0x02 {
+	if (v[1] & 0x40) == 0x40 {
 		s = s + "docsis,"
 	}
-	if (v[1] & 0x01) == 0x01 {
+	if (v[1] & 0x80) == 0x80 {
 		s = s + "station,"
 	}
 	if len(s) > 0 {
